@@ -279,7 +279,11 @@ def eval : Expr → Env → Res
       let b ← eval r env
       doIn env u b
   | .set es, env => do let vs ← evalList es env; .ok (mkSet vs)
-  | .record kes, env => do let kvs ← evalKVs kes env; .ok (mkRecord kvs)
+  -- `ToEval` stores the entries in a Go map (a later duplicate key overwrites the earlier one);
+  -- `recordLiteralEval.Eval` visits the keys of that map in ascending order, the first error wins.
+  -- Evaluation is pure and total, so "every entry's own result, then the first error in key order" is
+  -- the same function (`eval_record` in CedarGoProofs/Lemmas/RecordLit.lean: `evalKVs (canonKVs kes) env`).
+  | .record kes, env => do let kvs ← seqKVs (canonKVs (evalEach kes env)); .ok (mkRecord kvs)
   | .call fn args, env =>
     -- `newExtensionEval`: arity and dispatch are decided when the evaluator is built; every
     -- extension evaluator evaluates and converts its arguments left to right, then applies
@@ -303,12 +307,18 @@ def evalTyped : List Expr → List Kind → Env → Except Err (List Value)
 def evalList : List Expr → Env → Except Err (List Value)
   | [], _ => .ok []
   | e :: es, env => do let v ← eval e env; let vs ← evalList es env; .ok (v :: vs)
-/-- record literal entries in the given order, first error wins.
-    (Go iterates a map here: with ≥ 2 erroring entries the reported error depends on map order — C14.) -/
+/-- every entry of a record literal with its own result, in source order -/
+def evalEach : List (String × Expr) → Env → List (String × Res)
+  | [], _ => []
+  | (k, e) :: kes, env => (k, eval e env) :: evalEach kes env
+end
+
+/-- entries evaluated in the given order, first error wins.  A record literal evaluates
+    `evalKVs (canonKVs kes)`: the distinct keys in ascending order (since the repair of
+    `recordLiteralEval.Eval`, which used to range over the Go map: C14). -/
 def evalKVs : List (String × Expr) → Env → Except Err (List (String × Value))
   | [], _ => .ok []
   | (k, e) :: kes, env => do let v ← eval e env; let vs ← evalKVs kes env; .ok ((k, v) :: vs)
-end
 
 /-- `BoolEvaler.Eval` -/
 def evalBool (e : Expr) (env : Env) : Except Err Bool := (eval e env).bind toBool
